@@ -202,10 +202,49 @@ def apply(raw, op, rnd=None):
     raise ValueError(op)
 
 
+def _cannot_be_tiled(body, kind):
+    """True if walking the items of `body` ends with 1-3 bytes left over, which cannot hold an
+    item header.
+    kind 'pdv': 32-bit length + value; kind 'item': type, reserved, 16-bit length + value."""
+    p = 0
+    while p < len(body):
+        if len(body) - p < 4:
+            return True
+        if kind == 'pdv':
+            ln = struct.unpack('>I', body[p:p + 4])[0]
+        else:
+            ln = struct.unpack('>H', body[p + 2:p + 4])[0]
+        p += 4
+        # (an item whose length runs past the end is NOT counted: a decoder may take what is
+        # there - the library does - so such a PDU is merely malformed)
+        p += ln
+    return False
+
+
+def undecodable(raw):
+    """A framed PDU of a known type that NO reading can decode: fixed fields are missing, or
+    the items inside do not fit the declared length.  (Anything milder - reserved bytes,
+    odd values, surplus bytes behind complete fixed fields - is merely 'malformed'.)"""
+    t = raw[0]
+    body = raw[6:]
+    if t in (3, 5, 6, 7):
+        return len(body) < 4
+    if t == 4:
+        return _cannot_be_tiled(body, 'pdv')
+    if t in (1, 2):
+        # (the variable items of an A-ASSOCIATE PDU are read "until the data ends": the library
+        # takes what is there, so surplus or cut-off items are merely malformed)
+        return len(body) < 68
+    return False
+
+
 def classify(raw):
-    """R-codec classification of one framed PDU: 'unrecognised' | 'malformed' | 'valid'."""
+    """R-codec classification of one framed PDU:
+    'unrecognised' | 'undecodable' | 'malformed' | 'valid'."""
     if raw[0] not in rc.PDU_NAMES:
         return 'unrecognised'
+    if undecodable(raw):
+        return 'undecodable'
     try:
         p = rc.parse_pdu(raw)
     except rc.Malformed:
